@@ -262,9 +262,8 @@ theorem py_inflate_inv {s o r : MH} (hr : Py.inflate s o = .ok r) : CacheInv r :
     · rename_i am ham
       split at hr
       · cases hr
-      · exact py_setAbundances_inv (by
-          unfold Py.copyAndClear at ham
-          exact py_mkMinHash_inv ham) hr
+      · rename_i am' hd
+        exact py_setAbundances_inv (py_downsample_inv hd) hr
   · cases hr
 
 /-! ### every reachable state -/
